@@ -3,9 +3,11 @@
    the cleanup / deadline predicates (Spec side). *)
 Require Import WS.Base.Bytes WS.Base.Tape WS.Model.Dial.
 
-Record xcase := { x_server : bool; x_deadline : bool; x_early : bool }.
+Record xcase := { x_server : bool; x_deadline : bool; x_early : bool;
+                  x_ctxok : bool (* every dial function that takes a context got one carrying the deadline *) }.
 Definition p_xcase : P xcase :=
-  sv <- pBool ;; dl <- pBool ;; ea <- pBool ;; ret {| x_server := sv; x_deadline := dl; x_early := ea |}.
+  sv <- pBool ;; dl <- pBool ;; ea <- pBool ;; cx <- pBool ;;
+  ret {| x_server := sv; x_deadline := dl; x_early := ea; x_ctxok := cx |}.
 
 Definition hev_of (n:N) : hev :=
   match n with
@@ -39,7 +41,8 @@ Definition spec (k:xcase) (obs:tape) : option (N * tape) :=
   | ok :: tr =>
       let okb := negb (ok =? 0) in
       let tr := map hev_of tr in
-      if okb && negb (deadlines_clear tr) then Some (173, [])   (* the connection is handed over with a deadline still armed *)
+      if x_deadline k && negb (x_ctxok k) then Some (174, [])   (* the part of the handshake that only the context bounds is unbounded *)
+      else if okb && negb (deadlines_clear tr) then Some (173, [])   (* the connection is handed over with a deadline still armed *)
       else if x_server k then
         if okb then (if has_close tr then Some (170, []) else None)
         else (if ends_with_close tr then None else Some (171, []))
